@@ -7,7 +7,7 @@ PROP = {'gen_tables': ['BwsFacts', 'TransLocked'], 'race': True,
          'failing WS.Sync), Stop in the middle, ticks through a harness Clock; every history is closed by Stop and Sync on both sides; '
          '(3) bufio — the same scripted sinks under a bare bufio.Writer (validates the bufio part of the model incl. the buffered branch of its '
          'loop and the sticky error); (4) conc — 1–5 writer/syncer goroutines + a ticker goroutine, then K concurrent Stops (also Stops inside '
-         'phase 1), slow sinks, under -race with a 20 s watchdog and a goroutine-leak check, records self-describing so that the sink stream is '
+         'phase 1), slow sinks, under -race with a goroutine-leak check and a deadlock verdict (an atomic snapshot in which every goroutine is parked; 20 s watchdog as a fallback), records self-describing so that the sink stream is '
          'parsed back; (5) crash — child process writing records through a BufferedWriteSyncer over a file, Sync acknowledgements on a pipe, '
          'SIGKILL at a random time (6 quick / 120 thorough). non-trivial = seq: ≥2 writes, ≥1 byte in the sink and ≥1 flushing op; bufio: ≥2 '
          'writes; conc: ≥2 goroutines and ≥2 records; crash: ≥1 record in the file; distinct = distinct canonical op JSON',
@@ -18,19 +18,23 @@ PROP = {'gen_tables': ['BwsFacts', 'TransLocked'], 'race': True,
                  'per synchronisation action; -race + the mutual-exclusion probe in the sink check the implementation side)',
                  'crash clause: one sink Write = one write(2) that the kernel applies atomically with respect to SIGKILL (the harness accepts a '
                  'file cut inside a record only at a 4096-byte page boundary and counts it as shape oscut)',
-                 'the thread-machine theorems about flushing treat sink writes as reliable (flushed := acc); failing sinks are covered by the '
-                 'sequential theorems (stream_inv, short_count_has_error, error_is_sticky)'],
+                 'each critical section of s.mu acts on the byte-level state as one step (the thread machine with bytes applies Bws.write / '
+                 'Bws.sync / mark when the section ends): justified by mutex_excl, the extracted lock-set skeleton (waits_outside_mu) and '
+                 'C09\'s lock-set table (every access to buffer, flags and sink is under s.mu) — not by a proof about Go\'s memory model'],
  'technique': 'Lean 4: executable model of bufio.Writer (from Go\'s source: loop, large-write path, short writes, sticky error) + '
               'BufferedWriteSyncer over a scripted sink, invariants by induction over unbounded histories; interleaving machine of clients, flush '
-              'goroutine, the mutex and the stop/done/flushed channels with an inductive invariant, progress and a termination measure; tie: '
-              'extracted synchronisation skeleton (Gen/BwsFacts) + differential runs against the real type with a harness Clock, concurrent '
-              'programs under -race, kill -9 of a writing subprocess',
+              'goroutine, the mutex and the stop/done/flushed channels with an inductive invariant, progress and a termination measure; the same '
+              'machine carrying the byte-level state, with a refinement invariant giving linearizability (conc_refines_seq) and the byte-level '
+              'theorems for all interleavings; tie: extracted synchronisation skeleton (Gen/BwsFacts) + differential runs against the real type '
+              'with a harness Clock, concurrent programs under -race, kill -9 of a writing subprocess',
  'level_text': 'Stream invariant, bounded buffering, sticky-error and short-count rules are proved for every scripted sink, size and history; '
                'whole-write alignment, the flush clauses and the crash prefix for every reliable sink; mutual exclusion, deadlock freedom, '
-               'completion of every call, and for every returning Stop: loop ended and shutdown flush completed, for every number of goroutines and '
-               'every interleaving of the thread machine, with machine-checked witnesses that the issue-1428 and F11 shapes of Stop violate them.',
- 'level_note': 'The thread machine abstracts the buffer to counters and is tied to the source by the extracted skeleton, not by a refinement '
-               'proof; schedules of the real code are sampled (-race, stress), not enumerated. Kernel write atomicity under SIGKILL is assumed. '
-               'A Write after Stop stays buffered until the next Sync (F21): judged outside the statement (Stop closes the buffer; a repeated '
-               'Stop is a no-op by design) and not flagged.',
+               'completion of every call, and for every returning Stop: loop ended and shutdown flush completed, for every number of goroutines '
+               'and every interleaving of the thread machine, with machine-checked witnesses that the issue-1428 and F11 shapes of Stop violate '
+               'them; and for every interleaving the byte-level state equals the sequential model run on the critical sections in mutex-acquisition '
+               'order (conc_refines_seq), so stream invariant, bound, whole writes, Sync/Stop flush clauses and crash prefix hold for all schedules.',
+ 'level_note': 'The step from the Go code to the thread machine (one atomic byte-level effect per critical section, the pcs of the skeleton) is '
+               'tied by the extracted skeleton and differential runs, not proved from a semantics of Go; schedules of the real code are sampled '
+               '(-race, stress), not enumerated. Kernel write atomicity under SIGKILL is assumed. A Write after Stop stays buffered until the '
+               'next Sync (F21): judged outside the statement (Stop closes the buffer; a repeated Stop is a no-op by design) and not flagged.',
 }
